@@ -13,6 +13,9 @@
      sg_first whether _postprocessing removes the subgroup choices before filling
      coll_err / coll_dfl_ok   the collision rule of _instantiate_dataclasses
      site     where the parents' actions are installed (never / constructor / set-up)
+     sgsel    the test(s) by which _get_subgroup_fields selects the subgroup-choice fields
+     sup_none whether a SUPPRESS-ed wrapper without constructor arguments yields None (no attribute)
+     routes   whether set_defaults hands an entry for an existing wrapper's destination to the wrapper (kwargs.pop)
      fwd      how add_argument_group forwards prefix_chars / argument_default / conflict_handler. *)
 From SPV Require Export Base.Str.
 
@@ -45,10 +48,17 @@ Fixpoint set_key (k : string) (v : nval) (n : nsp) : nsp :=
 Definition restrict (ks : list string) (n : nsp) : nsp := filter (fun p => str_in (fst p) ks) n.
 
 (* ---------- what a parser has registered ---------- *)
-Inductive akind := KOpt | KPos | KDefault.       (* optional | positional | a set_defaults entry (parser._defaults) *)
+Inductive akind :=
+| KOpt | KPos            (* optional | positional *)
+| KDefault               (* a set_defaults entry given while no dataclass wrapper has that destination *)
+| KRouted.               (* a set_defaults entry for the destination of an EXISTING wrapper *)
 Record action := mkact { a_dest : string; a_kind : akind }.
-Definition is_default (a : action) : bool := match a_kind a with KDefault => true | _ => false end.
-Definition default_keys (acts : list action) : list string := map a_dest (filter is_default acts).
+(* ArgumentParser.set_defaults: `routes` = entries for existing wrappers are handed to the wrapper (kwargs.pop) and
+   never reach parser._defaults *)
+Definition is_default (routes : bool) (a : action) : bool :=
+  match a_kind a with KDefault => true | KRouted => negb routes | _ => false end.
+(* the keys of parser._defaults *)
+Definition default_keys (routes : bool) (acts : list action) : list string := map a_dest (filter (is_default routes) acts).
 
 (* where the parents' actions and defaults are installed *)
 Inductive psite := PNever | PInit | PPreprocess.
@@ -114,6 +124,9 @@ Section WithFacts.
   Variable coll_err : err.
   Variable coll_dfl_ok : bool.
   Variable site : psite.
+  Variable sgsel : list skipc.        (* _get_subgroup_fields: the tests that select a field as a subgroup choice *)
+  Variable sup_none : bool.           (* _instantiate_dataclasses: a SUPPRESS-ed wrapper with no constructor args yields None *)
+  Variable routes : bool.             (* set_defaults: see is_default *)
 
   (* wrapper.fields *)
   Definition w_fields (w : wrapper) : list field :=
@@ -128,7 +141,7 @@ Section WithFacts.
   Definition generated (forest : list wrapper) : list action := map (fun d => mkact d KOpt) (reg_dests forest).
 
   Definition subgroup_dests (forest : list wrapper) : list string :=
-    map (fun wf => f_dest (snd wf)) (filter (fun wf => f_subgroup (snd wf)) (pairs forest)).
+    map (fun wf => f_dest (snd wf)) (filter (fun wf => existsb (static_holds (snd wf)) sgsel) (pairs forest)).
   Definition top_wrappers (forest : list wrapper) : list wrapper := filter (fun w => negb (w_nested w)) forest.
   Definition top_dests (forest : list wrapper) : list string := flat_map w_dests (top_wrappers forest).
 
@@ -153,12 +166,13 @@ Section WithFacts.
 
   (* a SUPPRESS-ed destination gets an attribute only when some field below it was given *)
   Definition sup_nonempty (forest : list wrapper) (d : string) (n1 : nsp) : bool :=
-    existsb (fun wf => under d (f_dest (snd wf)) && mem (f_dest (snd wf)) n1 && negb (f_subgroup (snd wf))) (pairs forest).
+    existsb (fun wf => under d (f_dest (snd wf)) && mem (f_dest (snd wf)) n1
+                       && negb (existsb (static_holds (snd wf)) pskips)) (pairs forest).
 
   (* _instantiate_dataclasses, namespace side.  Only wrappers without a parent touch the namespace; the stable
      sort by nesting level keeps their relative order. *)
   Definition inst_one (forest : list wrapper) (dfl : list string) (n1 : nsp) (w : wrapper) (n : nsp) (d : string) : res nsp :=
-    if w_suppress w && negb (sup_nonempty forest d n1) then Ok n
+    if w_suppress w && sup_none && negb (sup_nonempty forest d n1) then Ok n
     else if negb (mem d n) then Ok (n ++ [(d, NInst)])%list
     else if coll_dfl_ok && str_in (hd "" (w_dests w)) dfl then Ok (set_key d NInst n)
     else Err coll_err.
@@ -193,7 +207,7 @@ Section WithFacts.
           let acts := sp_actions site parents plain (generated forest) in
           match AP acts argv with
           | Err e => Err e
-          | Ok (n, ex) => match post forest (default_keys acts) n with Ok n' => Ok (n', ex) | Err e => Err e end
+          | Ok (n, ex) => match post forest (default_keys routes acts) n with Ok n' => Ok (n', ex) | Err e => Err e end
           end
       end.
 
